@@ -246,6 +246,9 @@ def run_pipeline(spec, keep=False):
         missing = list(orig_missing(meta_molecule, molecule))
         captured["requested"] = res_graph_to_json(meta_molecule)
         captured["missing"] = [[m["idxA"], m["idxB"]] for m in missing]
+        # "the molecule that was built": the result of mapping, link application and modifications, as it is when
+        # gen_params reports the missing links — BEFORE anything the output stage may do to it
+        captured["built"] = mol_to_json(molecule)
         trace["passed"].append("missing")
         return missing
 
